@@ -68,10 +68,13 @@ ReadsOK(cands, gets, i) == IF i > Len(gets) THEN TRUE
                            ELSE LET j == JudgeAll(cands, gets[i]) IN j.tags = {} /\ ReadsOK(j.sts, gets, i + 1)
 (* C14 at quiescence: stored bytes within the limit plus one record per store that was in flight *)
 BoundOK(e) == Rec[h].policy # "random" \/ e.bytes <= Rec[h].L + Rec[h].slack
+(* ... and, with nothing in flight, the accounted bytes are exactly the stored bytes (C15) - otherwise the  *)
+(* limit enforced from now on is off by the difference (C14)                                              *)
+AcctOK(e) == Rec[h].policy # "random" \/ e.usage = NatToStr(e.bytes)
 Final == /\ InHist /\ E.e = "final" /\ DOMAIN pend = {} /\ lind = {}
          /\ E.outcome = "Complete"
          /\ (Relaxed \/ ReadsOK(cs, E.gets, 1))
-         /\ BoundOK(E)
+         /\ BoundOK(E) /\ AcctOK(E)
          /\ TLCSet(1, TLCGet(1) \cup {h})
          \* conformance to the MemcConc model (replayed TLC schedules): same steps in the same order, same statuses
          /\ IF "expect" \in DOMAIN Rec[h] /\ ~Conforms(Rec[h].expect, E, h) THEN TLCSet(2, TLCGet(2) \cup {h}) ELSE TRUE
